@@ -8,6 +8,7 @@ from spverif.core.util import attempt, exc_sig, rand_bytes, rand_uint, rand_name
 from spverif.ref import cfdp as R
 from . import _cfdp as C
 
+SCRIBBLE = True
 ID = "C18"
 LEVEL = "exploration"
 SHARDS = {"quick": 1, "thorough": 8}
@@ -127,6 +128,27 @@ def k_msg(ctx, kind, p):
     _check_reserved(ctx, kind, p, m, case, "built")
     ok, g = attempt(lambda: m.to_generic_msg_to_user_tlv())
     ctx.check("msg.decode", ok and bytes(g.pack()) == want and g.is_reserved_cfdp_message() is True, "to_generic", kind, case)
+    ok, raw2 = attempt(m.pack)
+    ctx.check("msg.pack", ok and bytes(raw2) == want, "second_pack_differs", kind, case, observed=bytes(raw2)[:80] if ok else repr(raw2))
+    if kind in ("put_request", "listing_request", "listing_response"):
+        # the same parameter object (and the LV objects inside it) used for further messages, as an application re-using names would
+        from spacepackets.cfdp import tlv as T
+        ok, prm = attempt(getattr(m, GETTER[kind]))
+        if ok and prm is not None:
+            prm = prm[1] if kind == "listing_response" else prm
+            if kind == "put_request":
+                again = [("put_request", lambda: T.ProxyPutRequest(prm), (0x00, fields)),
+                         ("listing_request", lambda: T.DirectoryListingRequest(T.DirectoryParams(prm.source_file_name, prm.dest_file_name)),
+                          (0x10, R.lv(p["src"].encode()) + R.lv(p["dst"].encode())))]
+            else:
+                again = [("listing_request", lambda: T.DirectoryListingRequest(prm), (0x10, R.lv(p["path"].encode()) + R.lv(p["file"].encode()))),
+                         ("listing_response", lambda: T.DirectoryListingResponse(True, prm), (0x11, b"\x80" + R.lv(p["path"].encode()) + R.lv(p["file"].encode())))]
+            for k2, fn, (mt2, f2) in again:
+                if 5 + len(f2) > 255:
+                    continue
+                w2 = R.reserved_message(mt2, f2)
+                ok, r2 = attempt(lambda: bytes(fn().pack()))
+                ctx.check("msg.pack", ok and r2 == w2, "octets_when_parameter_objects_are_reused", f"{kind}->{k2}", case, expected=w2[:80], observed=r2[:80] if ok else repr(r2))
 
 
 def _check_reserved(ctx, kind, p, rm, case, origin):
@@ -214,6 +236,8 @@ def selftest(ctx):
 
 
 def run(ctx):
+    from spverif.san import scribble
+    scribble.install()
     r = ctx.rng
     # enumerations
     for cond in C.CONDS:
@@ -264,6 +288,7 @@ def run(ctx):
 
 
 def conclude(ctx):
+    ctx.require(ctx.extra.get("hostile_caller_scribbled_pack_results", 0) > 0, "hostile-caller sanitizer scribbled no pack() result")
     for kind in KINDS9:
         ctx.require(ctx.classes.get(f"msg/{kind}", 0) > 0, f"message kind {kind} not exercised")
     for c in ("classify/reserved", "classify/other"):
